@@ -877,3 +877,15 @@ def subterms(t, seen=None):
 
 def mentions(t, pred):
     return any(pred(x) for x in subterms(t))
+
+
+def err_variant(v):
+    """Name of the RtcmError variant built in place by an `Err(RtcmError::X)` term; None when the payload is not a variant built on the spot (an
+    error handed on from another Result - a folded `?`, a match arm `Err(e) => Err(e)`): such a return adds no rejection of its own."""
+    try:
+        e = v.args[3][0]
+    except Exception:
+        return None
+    if e.op == "agg" and len(e.args) >= 3 and isinstance(e.args[2], str):
+        return e.args[2]
+    return None
